@@ -297,7 +297,7 @@ def _loop_rules(rep, repo, app, dv, cfg, f):
     ok = dv.method_ok_conds(cs) and dv.matched_conds(cs)
     rep.check('R06.b', fkey(f, 'execute guarded'), ok, 'a route is executed only if its pattern matched and its methods admit the request' if ok else
               'route.execute is reachable without a successful path and method test: %s' % '; '.join(cond_texts(cs)), app, dv.exec_st)
-    br_ifs = [s for s in stmts_of(f.node) if isinstance(s, ast.If) and norm(strip_not(s.test)[0]) == '%s.is_branch' % dv.route_var]
+    br_ifs = [s for s in stmts_of(f.node) if isinstance(s, ast.If) and dv.is_route_attr(strip_not(s.test)[0], 'is_branch')]
     ok = bool(br_ifs) and all(dv.method_ok_conds(dv.conds(s)) for s in br_ifs)
     rep.check('R06.b', fkey(f, 'method test before slash handling'), ok, 'slash handling happens only for admitted methods' if ok else
               'slash handling is reachable before/without the method test', app, br_ifs[0] if br_ifs else dv.loop)
